@@ -324,6 +324,21 @@ func runC13(c *Ctx, r *Report) {
 			fmt.Sprintf("goroutines started in a loop all write captured variable %q with no lock taken inside the goroutine — unsynchronised write/write race between sibling validators", w.Var))
 	}
 
+	// reads of a variable that sibling validators write must be under the same kind of own lock
+	written := map[types.Object]bool{}
+	for _, w := range le.SibWrites {
+		written[w.Obj] = true
+	}
+	for _, rd := range le.SibReads {
+		if rd.Lit.Pkg.PkgPath != p.Mod || !written[rd.Obj] {
+			continue
+		}
+		key := r.Key("R-C13.3", rd.Lit, "load", rd.Obj.Name())
+		r.Check(rd.OK, "R-C13.3", key, rd.Pos,
+			fmt.Sprintf("read of shared %q under own lock %v", rd.Obj.Name(), rd.Held),
+			fmt.Sprintf("a sibling goroutine reads the shared variable %q (which its siblings write under a lock) without taking that lock: read/write data race", rd.Obj.Name()))
+	}
+
 	// R-C13.4 split critical sections
 	for _, s := range le.Splits {
 		if !strings.Contains(s.Fn.Pkg.PkgPath, p.Mod) {
@@ -426,7 +441,10 @@ func runC13(c *Ctx, r *Report) {
 				} else {
 					r.Violate("R-C13.9", r.Key("R-C13.9", e.Fn, "reacquire-read", e.AcqClass), e.Pos, fmt.Sprintf("recursive read acquisition of %s on %s via %s: a writer queued between the two RLocks deadlocks both", e.AcqClass, e.AcqBase, e.Via))
 				}
-			} else if e.AcqClass != "IPFSLog.lock" { // IPFSLog cross-instance edges belong to C14
+			} else if e.AcqClass == "IPFSLog.lock" {
+				r.Violate("R-C13.9", r.Key("R-C13.9", e.Fn, "foreign-log-lock", strings.TrimPrefix(e.Via, "call ")), e.Pos,
+					fmt.Sprintf("IPFSLog.lock of %s is acquired (via %s) while IPFSLog.lock of %s is held: two logs operating on each other concurrently deadlock", e.AcqBase, e.Via, e.HeldBase))
+			} else {
 				r.List("nested acquisition of two %s instances (%s then %s) in %s via %s", e.AcqClass, e.HeldBase, e.AcqBase, e.Fn.Name, e.Via)
 			}
 			continue
